@@ -62,6 +62,29 @@ def load_known_findings():
         return json.load(f)
 
 
+BASELINE_DIR = os.path.join(VERIF, "baseline")
+
+
+def load_baseline(pid):
+    """obligations discharged on the baseline tree (the pinned commit plus the fix: commits), per task, with the identity
+    of the sources each task read; written by `VERIF_WRITE_BASELINE=1 bin/check <id>` on that tree and committed"""
+    fn = os.path.join(BASELINE_DIR, "%s.json" % pid)
+    if not os.path.exists(fn):
+        return {"tasks": {}}
+    with open(fn) as f:
+        return json.load(f)
+
+
+def changed_since_baseline(baseline, r, ob_name):
+    """-> reason string if this obligation was discharged on the baseline tree and the sources its task reads differ now"""
+    b = baseline.get("tasks", {}).get(r.get("task"))
+    if not b or not r.get("dep") or b.get("dep") == r.get("dep"):
+        return None
+    if ob_name is None:
+        return "the task verified completely on the baseline tree (%s obligations)" % len(b.get("discharged", [])) if b.get("status") == "ok" else None
+    return "discharged on the baseline tree" if ob_name in set(b.get("discharged", [])) else None
+
+
 def slug(s):
     return re.sub(r"[^A-Za-z0-9_.-]+", "_", s)[:120]
 
@@ -133,6 +156,15 @@ def run_check(spec, tier="quick", root="/repo", seed=0):
             by_backend["tables"] = by_backend.get("tables", 0) + 1
         else:
             decide_table_failure(spec, known, report, rec, root)
+    if os.environ.get("VERIF_WRITE_BASELINE") == "1":
+        # record what is discharged on this tree (run on the unchanged tree only; the file is committed)
+        base = {"tree": repo.tree_hash() if repo else None, "tasks": {}}
+        for r in results:
+            base["tasks"][r["task"]] = {"dep": r.get("dep"), "status": r["status"],
+                                        "discharged": sorted(ob["name"] for ob in r.get("obligations", []) if ob["status"] == "discharged" and spec.select(ob, r))}
+        os.makedirs(BASELINE_DIR, exist_ok=True)
+        with open(os.path.join(BASELINE_DIR, "%s.json" % pid), "w") as f:
+            json.dump(base, f, indent=0, sort_keys=True)
     try:
         spec.extra(root, tier, report)
     except Exception as e:      # noqa
@@ -271,6 +303,16 @@ def decide_undischarged(spec, known, report, r, ob, root):
     if fails and not unknown_fail:
         # every failure found is a listed known finding; the obligation itself stays open
         report["undecided"].append({"name": ob["name"], "reason": "only known findings reproduce; obligation not discharged outside them"})
+        return
+    # an obligation that was discharged on the baseline tree and is no longer discharged on CHANGED sources is reported
+    # as a violation without input (the solver's output goes into the replay file); on unchanged sources an
+    # `unknown` can only be the solver's doing and stays undecided
+    why = changed_since_baseline(load_baseline(pid), r, None if ob["name"].endswith(("/out-of-subset", "/out-of-subset/F/structure")) else ob["name"])
+    if why:
+        payload["baseline"] = why
+        path = write_replay(pid, ob["name"], payload)
+        if not any(v["obligation"] == ob["name"] for v in report["violations"]):
+            report["violations"].append({"obligation": ob["name"], "replay": path, "input": False})
         return
     report["undecided"].append({"name": ob["name"], "reason": "solver %s (%s); directed search found no failing input" % (ob["status"], ob.get("reason", ""))})
 
